@@ -137,7 +137,110 @@ fn jlist(v: &[String]) -> String {
     format!("[{}]", v.iter().map(|r| format!("\"{}\"", esc(r))).collect::<Vec<_>>().join(","))
 }
 
+/// `verif_replay --grid <alphabet-file> <depth>`: bounded exhaustive stand-in for the lexer-dependent part of C09 (and the
+/// no-panic part of C10/C11): every text made of up to <depth> items of the alphabet (joined by blanks), on its own and
+/// behind the header line `A B`, is parsed under catch_unwind; an accepted text is bound to the inputs A, B and iterated
+/// statically (at most 40 rows; texts containing `while` are not iterated: they may legitimately not terminate).
+/// Oracle, from the statements: no panic; a parse error has only locations inside the text on character boundaries.
+fn grid(alpha_path: &str, depth: usize) {
+    let alpha: Vec<String> = std::fs::read_to_string(alpha_path)
+        .expect("alphabet")
+        .lines()
+        .filter(|l| !l.is_empty() && !l.starts_with("##"))
+        .map(|l| l.replace("\\n", "\n").replace("\\t", "\t").replace("\\r", "\r").replace("\\s", " "))
+        .collect();
+    std::panic::set_hook(Box::new(|_| {}));
+    let sigs = vec![
+        Signal { name: "A".into(), bits: 8, typ: SignalType::Input { default: InputValue::Value(0) } },
+        Signal { name: "B".into(), bits: 8, typ: SignalType::Input { default: InputValue::Value(0) } },
+    ];
+    let mut checked = 0u64;
+    let mut accepted = 0u64;
+    let mut failures: Vec<String> = vec![];
+    let mut idx = vec![0usize; 0];
+    let check_text = |text: &str, checked: &mut u64, accepted: &mut u64, failures: &mut Vec<String>| {
+        *checked += 1;
+        let t = text.to_string();
+        let r = catch_unwind(|| t.parse::<ParsedTestCase>());
+        match r {
+            Err(p) => failures.push(format!("parse panic on {:?}: {}", text, panic_msg(p))),
+            Ok(Err(e)) => {
+                let ok = e.at.iter().all(|s| s.start <= s.end && s.end <= text.len() && text.is_char_boundary(s.start) && text.is_char_boundary(s.end));
+                if !ok {
+                    failures.push(format!("error location outside the text on {:?}: {:?}", text, e.at));
+                }
+            }
+            Ok(Ok(p)) => {
+                *accepted += 1;
+                if !text.contains("while") {
+                    let s2 = sigs.clone();
+                    let r2 = catch_unwind(AssertUnwindSafe(|| {
+                        if let Ok(tc) = p.with_signals(s2) {
+                            if let Ok(it) = tc.try_iter_static() {
+                                for _ in it.take(40) {}
+                            }
+                        }
+                    }));
+                    if let Err(pn) = r2 {
+                        failures.push(format!("bind/iterate panic on {:?}: {}", text, panic_msg(pn)));
+                    }
+                }
+            }
+        }
+    };
+    for len in 0..=depth {
+        idx.clear();
+        idx.resize(len, 0);
+        loop {
+            let body = idx.iter().map(|&i| alpha[i].as_str()).collect::<Vec<_>>().join(" ");
+            check_text(&body, &mut checked, &mut accepted, &mut failures);
+            let with_header = format!("A B\n{}", body);
+            check_text(&with_header, &mut checked, &mut accepted, &mut failures);
+            if failures.len() > 20 {
+                break;
+            }
+            // next index vector
+            let mut k = len;
+            loop {
+                if k == 0 {
+                    break;
+                }
+                k -= 1;
+                idx[k] += 1;
+                if idx[k] < alpha.len() {
+                    break;
+                }
+                idx[k] = 0;
+                if k == 0 {
+                    k = usize::MAX;
+                    break;
+                }
+            }
+            if len == 0 || k == usize::MAX {
+                break;
+            }
+        }
+        if failures.len() > 20 {
+            break;
+        }
+    }
+    println!(
+        "{{\"grid\":true,\"alphabet\":{},\"depth\":{},\"checked\":{},\"accepted\":{},\"failures\":{}}}",
+        alpha.len(),
+        depth,
+        checked,
+        accepted,
+        jlist(&failures)
+    );
+}
+
 fn main() {
+    if std::env::args().nth(1).as_deref() == Some("--grid") {
+        let a = std::env::args().nth(2).expect("alphabet file");
+        let d: usize = std::env::args().nth(3).and_then(|x| x.parse().ok()).unwrap_or(2);
+        grid(&a, d);
+        return;
+    }
     let path = std::env::args().nth(1).expect("scenario file");
     let text = std::fs::read_to_string(&path).expect("read scenario");
     let mut signals = vec![];
